@@ -45,6 +45,10 @@ FIXED_KINDS = {"IF": "KW_if", "DO": "KW_do", "END_KW": "KW_end", ";": "SEMI", "W
                ",": "COMMA", ":": "COLON", "+": "PLUS", "NUM": "NUM", "[": "LBR", "]": "RBR"}
 
 
+# characters no token pattern matches: punctuation, control characters, an unassigned and a private-use code point
+FOREIGN_CHARS = "@$?!~`\x00\x07\x7f\u0378\ue000"
+
+
 def le(a, b):
     return a <= b
 
@@ -207,7 +211,7 @@ def eval_text(case):
     class _P:       # check_token_stream only needs .tokenizer
         tokenizer = tk
     lines = text.split("\n")
-    foreign = [i + 1 for i, ln in enumerate(lines) if any(ch in "@$?" for ch in ln)]
+    foreign = [i + 1 for i, ln in enumerate(lines) if any(ch in FOREIGN_CHARS for ch in ln)]
     f = []
     classes = set(["arbitrary_text"])
     try:
@@ -286,7 +290,7 @@ def evaluate(case):
         if inp.get("foreign") is not None and tokens:
             # lexical error: one foreign character right before token k
             k = inp["foreign"][0] % len(tokens)
-            ch = "@$?!~`"[inp["foreign"][1] % 6]
+            ch = FOREIGN_CHARS[inp["foreign"][1] % len(FOREIGN_CHARS)]
             (l, c) = pos[k][0]
             bad_lines = list(lines)
             bad_lines[l - 1] = bad_lines[l - 1][:c - 1] + ch + bad_lines[l - 1][c - 1:]
@@ -308,6 +312,13 @@ def evaluate(case):
             except Exception as e:   # noqa
                 f.append(("foreign_character_raises_" + type(e).__name__, f"{bad!r}: {e}"))
             continue
+        if inp.get("poison") is not None:
+            # the same parser first rejects another text (never closed comment, foreign character)
+            try:
+                parser.parse(["x /* never closed", "a $ b", "/*\n\n", "a\n  @"][inp["poison"] % 4], do_cleanup=False)
+            except Exception:   # noqa
+                pass
+            classes.add("rejected_text_parsed_before")
         ff, inf = check_token_stream(parser, text, src, as_list)
         for b, d in ff:
             f.append((b, f"text={text!r} as_list={as_list}: {d}"))
@@ -373,8 +384,40 @@ def _fixed_grammar():
 
 
 @st.composite
+def st_nullable_prefix_grammar(draw):
+    """records whose alternatives share a common prefix made of nullable symbols only, one alternative being just that prefix:
+    nodes that match nothing although a factorised group was entered"""
+    opt_terms = draw(st.permutations(["PLUS", "COMMA", "LPAR", "RPAR"]))
+    npre = draw(st.integers(1, 2))
+    prods = {"N0": [["N1"]], "N1": [["N2", "SEMI", "N1"], []]}
+    pre = []
+    for i in range(npre):
+        a = "N%d" % (3 + i)
+        prods[a] = draw(st.sampled_from([[[opt_terms[i]], []], [[], [opt_terms[i]]]]))
+        pre.append(a)
+    tails = draw(st.lists(st.sampled_from([["WORD", "NUM"], ["WORD"], ["NUM", "WORD"], ["WORD", "WORD", "NUM"]]), min_size=1,
+                          max_size=3, unique_by=tuple))
+    alts = [pre + t for t in tails] + [list(pre)]
+    alts = list(draw(st.permutations(alts)))
+    prods["N2"] = alts
+    prods = {k: prods[k] for k in sorted(prods, key=lambda n: int(n[1:]))}
+    return {"prods": prods, "start": "N0", "terms": ["SEMI", "WORD", "NUM"] + list(opt_terms[:npre])}
+
+
+@st.composite
 def st_case(draw, max_tokens=14):
-    which = draw(st.sampled_from(["fixed", "fixed", "random"]))
+    which = draw(st.sampled_from(["fixed", "fixed", "random", "nullable_prefix"]))
+    if which == "nullable_prefix":
+        from checks.c01_parse_tree_validity import st_inputs as st_in
+        g = draw(st_nullable_prefix_grammar())
+        G = gk.Grammar(g["prods"], g["start"], set(g["terms"]))
+        inputs = draw(st_in(G, g, draw(st.integers(2, 5)), max_tokens=max_tokens))
+        case = {"grammar": "random", "g": g, "pool": draw(st.integers(0, 3)), "perm": draw(st.permutations(list(range(6)))),
+                "syn": draw(st.booleans()), "kw": False, "inputs": inputs, "smart": draw(st.booleans())}
+        for inp in case["inputs"]:
+            if draw(st.integers(0, 7)) == 0:
+                inp["foreign"] = [draw(st.integers(0, 20)), draw(st.integers(0, 10))]
+        return case
     if which == "fixed":
         g = _fixed_grammar()
         G = gk.Grammar(g["prods"], g["start"], set(g["terms"]))
@@ -388,13 +431,13 @@ def st_case(draw, max_tokens=14):
                 "inputs": c["inputs"][:5], "smart": draw(st.booleans())}
     for inp in case["inputs"]:
         if draw(st.integers(0, 7)) == 0:
-            inp["foreign"] = [draw(st.integers(0, 20)), draw(st.integers(0, 5))]
+            inp["foreign"] = [draw(st.integers(0, 20)), draw(st.integers(0, 10))]
     return case
 
 
 def st_text_case():
     plain = st.text("ab1+,;()[]{}: \t\n\n", max_size=40)
-    with_foreign = st.builds(lambda a, ch, b: a + ch + b, plain, st.sampled_from("@$?"), plain)
+    with_foreign = st.builds(lambda a, ch, b: a + ch + b, plain, st.sampled_from("@$?\x00\x7f\u0378"), plain)
     comments = st.text("ab1+, \n\n#/*", max_size=40)
     return st.one_of(
         plain.map(lambda t: {"text": t}), with_foreign.map(lambda t: {"text": t}),
